@@ -270,3 +270,26 @@ PROPS["C13"] = dict(
     assumptions=SDL_ASSUME,
     design_ref="DESIGN.md section 5 C13",
 )
+
+PROPS["C15"] = dict(
+    pkg="sdl", test="TestC15", engine="sdl",
+    quick=dict(checks=3000, shards=3), thorough=dict(checks=320000, shards=16), timeout=dict(quick=600, thorough=3000),
+    nt_floor=dict(quick=800, thorough=60000),
+    must_classes=["text-needing-escape", "backslash", "triple-quote-in-description", "has:directive @", "has:schema", "has:union", "has:input", "has:=",
+                  "ggqlgen-tool-case", "ggqlgen-files=2", "ggqlgen-input-without-directive-definitions"],
+    level="exploration",
+    technique="round-trip property testing: generated schemas with hostile descriptions/defaults -> Root.SDL -> fresh root -> canonical description through the public API; print stability; the same through the ggqlgen binary (-w, -e) built from the tree",
+    rule="Well-formed schemas of every kind whose descriptions and string defaults / directive-argument strings are drawn from a hostile pool"
+         " (quotes, backslashes, newlines, triple quotes, leading/trailing blanks, non-ASCII, control characters, CRLF), numeric defaults of"
+         " several lexical forms, nested list/object/enum defaults, directive definitions and uses with arguments, explicit schema blocks;"
+         " rendered with single-line or block-string descriptions, with or without commas. Oracle: p1=Root.SDL(false,true) is accepted by a"
+         " fresh root; the canonical description (types, members, wrappers, defaults by value, descriptions, directive uses with defaults"
+         " filled, union members, interfaces, directives) of the fresh root equals the original's; printing again gives p1; the same for"
+         " SDL without descriptions. One case in 20 also writes the schema to one or two files, runs `ggqlgen -w` and `ggqlgen -e` (binary"
+         " built from the working tree) and compares the rewritten files / embedded constants the same way. Non-trivial = a description or"
+         " string value needing an escape (schema level) / every tool case.",
+    level_text="Round-trip search with an independent canonical reader; exploration.",
+    level_note="Trusted: describe.go (reads the loaded schema through exported methods), go/parser for the embedded constant.",
+    assumptions=SDL_ASSUME + ["descriptions are compared after ggql's own normalisation (lines trimmed, blank lines dropped), i.e. as stored by the first load"],
+    design_ref="DESIGN.md section 5 C15",
+)
